@@ -6,6 +6,7 @@ CONSTANTS Callers = {c1, c2}
  FreshKey = TRUE
  MaxJunk = 0
  MaxClose = 0
+ MaxBad = 0
  Kinds = {"obj"}
  Dev = {"NotifyAllOnBadSalt"}
 INVARIANTS WireIdsIncrease SeqNoRules OwnResult AcceptedNeverResent SaltPersisted NoStallNotify NoStallDeliver
